@@ -205,6 +205,12 @@ fn render_cell(cx: &mut Ctx, c: &CellSpec, col: u32, row: u32, excluded: &mut Ve
             let mut enc = c.enc % 4;
             if formula.is_some() {
                 enc = 3;
+                if looks_like_xstring(&text) {
+                    // the cached result of a formula is written into <v> (t="str"); no
+                    // producer writes t="s" next to <f>, so the escape look-alike is avoided here
+                    text = text.replace("_x", "_y");
+                    excluded.push("xstring-in-formula-result");
+                }
             }
             if enc == 2 && guessable(&text) && cx.steer.inline_guess {
                 enc = 0;
@@ -512,14 +518,32 @@ pub fn render_sheet(cx: &mut Ctx, index: usize) -> SheetOut {
                 cells.insert((500, 1), OutCell { attrs: "r=\"A500\" t=\"d\"".into(), body: format!("<v>{}</v>", v), model: m });
             }
             Dirty::NoR => {
+                // a row that mixes self-closing style-only cells (<c s=".."/>, with and
+                // without r) with valued cells that have no r: every r-less cell sits right
+                // of its predecessor, whatever form the predecessor has
+                let st = if n_xf > 1 { " s=\"1\"" } else { "" };
+                let style = if n_xf > 1 { 1u32 } else { 0 };
+                // 0 valued r-less | 1 self-closing r-less | 2 self-closing with r (one column skipped) | 3 valued with r
+                let patterns: [[u8; 6]; 4] = [[1, 0, 2, 0, 0, 1], [0, 1, 0, 2, 0, 3], [2, 0, 1, 1, 0, 0], [3, 1, 0, 0, 2, 0]];
+                let pat = patterns[pickn(4)];
                 let mut x = String::new();
-                for (i, v) in [11u32, 22, 33].iter().enumerate() {
-                    let mut m = blank_cell(i as u32 + 1, 501);
-                    m.has_r = false;
-                    m.kind = "number".into();
-                    m.value = v.to_string();
-                    m.bits = Some(format!("{:016x}", (*v as f64).to_bits()));
-                    x.push_str(&format!("<c><v>{}</v></c>", v));
+                let mut col = 0u32;
+                for (i, k) in pat.iter().enumerate() {
+                    let v = 11 * (i as u32 + 1);
+                    col += if *k >= 2 { 2 } else { 1 };
+                    let mut m = blank_cell(col, 501);
+                    m.has_r = *k >= 2;
+                    let rattr = if *k >= 2 { format!(" r=\"{}\"", a1(col, 501)) } else { String::new() };
+                    if *k == 1 || *k == 2 {
+                        x.push_str(&format!("<c{}{}/>", rattr, st));
+                        m.s = style;
+                        m.has_s = style > 0;
+                    } else {
+                        x.push_str(&format!("<c{}><v>{}</v></c>", rattr, v));
+                        m.kind = "number".into();
+                        m.value = v.to_string();
+                        m.bits = Some(format!("{:016x}", (v as f64).to_bits()));
+                    }
                     dirty_cells.push(m);
                 }
                 extra_rows_xml.push((501, format!("<row r=\"501\">{}</row>", x)));
